@@ -172,7 +172,7 @@ pub struct SimStats {
   pub order_flipped: u64, pub both_devices_ready: u64, pub kbd_unplugged: u64, pub tab_unplugged: u64, pub arrival_during_drain: u64,
   pub backoff_sleeps: u64, pub multi_event_wakeups: u64, pub max_events_one_wakeup: u64, pub timer_ticks: u64, pub trace_cap_hit: u64,
   pub os_write_fault: [u64; 3], pub os_read_fault: u64, pub real_polls_compared: u64,
-  pub os_poll_fault: [u64; 3], pub os_sysread_fault: u64, pub os_syswrite_fault: [u64; 4], pub syswrite_partial_frames: u64, pub syswrite_retried_ok: u64, pub sys_writes: u64, pub sys_reads_kbd: u64, pub sys_reads_tab: u64, pub sys_waits: u64, pub sys_wait_timeouts: u64, pub sys_wait_eintr: u64, pub sys_wait_events: u64, pub sys_stale_dropped: u64, pub sys_fabricated_ready: u64, pub sys_polls_through_real_driver: u64, pub sys_subms_truncated: u64,
+  pub os_poll_fault: [u64; 3], pub os_sysread_fault: u64, pub sys_extra_devices_listed: u64, pub os_syswrite_fault: [u64; 4], pub syswrite_partial_frames: u64, pub syswrite_retried_ok: u64, pub sys_writes: u64, pub sys_reads_kbd: u64, pub sys_reads_tab: u64, pub sys_waits: u64, pub sys_wait_timeouts: u64, pub sys_wait_eintr: u64, pub sys_wait_events: u64, pub sys_stale_dropped: u64, pub sys_fabricated_ready: u64, pub sys_polls_through_real_driver: u64, pub sys_subms_truncated: u64,
 }
 
 pub trait ByteLayer {
@@ -374,7 +374,7 @@ impl<'a> Sim<'a> {
       (Ok(real), Some(ds)) => {
         let r = real.unwrap_or_default();
         let mut e = None;
-        for d in &r { if !ds.contains(d) { e = Some(format!("the real driver's poll reported {:?} where only {:?} had new data", r, ds)); } }
+        // (a device the real driver lists beyond those with new data is a harmless extra read)
         for d in ds { if !r.contains(d) {
           let has_data = match d { VDevice::Keyboard => !self.kbd_ready.is_empty(), VDevice::Tablet => !self.tab_ready.is_empty() };
           if has_data { e = Some(format!("{}{:?} has unread new data but the real driver's poll reported only {:?}", if *d == VDevice::Tablet { "[tablet] " } else { "" }, d, r)); }
@@ -650,9 +650,11 @@ impl<'a> Sim<'a> {
         match &answer {
           Some(KAns::Events(kd)) => {
             for d in kd { if !ds.contains(d) { note(self, format!("[driver]{} the kernel reported {:?} ready, the real driver's poll told the loop only {:?}", if *d == VDevice::Tablet { "[tablet]" } else { "" }, kd, ds)); } }
-            for d in &ds { if !kd.contains(d) { note(self, format!("[driver] the kernel reported {:?} ready, the real driver's poll told the loop {:?}", kd, ds)); } }
+            // (a device the driver lists although the kernel did not name it costs the loop one read that
+            // finds nothing: no statement forbids it)
+            if ds.iter().any(|d| !kd.contains(d)) { self.stats.sys_extra_devices_listed += 1; }
           }
-          Some(KAns::Zero) => note(self, format!("[driver] the wait system call timed out with nothing ready, the real driver's poll told the loop {:?}", ds)),
+          Some(KAns::Zero) => { if to_us.is_some() { note(self, format!("[driver][timer] the wait system call timed out with nothing ready, the real driver's poll hid the time-out from the loop and told it {:?}", ds)); } }
           Some(KAns::Eintr) => note(self, format!("[driver] the wait system call was interrupted by a signal, the real driver's poll told the loop {:?}", ds)),
           _ => {}
         }
@@ -891,7 +893,7 @@ impl<'a> VerifDriver for Sim<'a> {
             self.stats.syswrite_partial_frames += 1;
             let mut full = before.clone(); for x in evs { fold1(&mut full, x); }
             let stuck: Vec<KeyCode> = self.out_held.iter().filter(|k| !is_mod(k) && !before.contains(k) && !full.contains(k)).cloned().collect();
-            if !stuck.is_empty() { self.wire_note(format!("[partial-step] the failed write left {} down on the virtual keyboard although the batch {} as a whole leaves it up (the device got {})", keys_str(&stuck), evs_str(evs), evs_str(&seen))); }
+            if !stuck.is_empty() && self.byte_notes.len() < 12 { self.byte_notes.push(format!("[partial-step] the failed write left {} down on the virtual keyboard although the batch {} as a whole leaves it up (the device got {})", keys_str(&stuck), evs_str(evs), evs_str(&seen))); }
             // (a part of a frame on the device after a *reported* failure is counted, not judged: no statement
             // says a batch must go out in one write call; what is judged is the stuck key above)
           }
@@ -933,7 +935,7 @@ impl EnB {
 pub struct ObsB {
   pub nt_c10: bool, pub nt_c11: bool, pub nt_c12: bool, pub nt_c19: bool, pub nt_c20: bool,
   pub chords: u64, pub chords_while_held: u64, pub chord_key_held: u64, pub sends: u64, pub tablet_on_while_held: u64, pub tablet_on_while_timer: u64,
-  pub reads_in_tablet_mode: u64, pub timer_disarmed_by_event: u64, pub nochange_while_armed: u64, pub overdue_polls: u64, pub early_polls: u64, pub orphan_releases_after_tablet: u64, pub phantom_events: u64,
+  pub reads_in_tablet_mode: u64, pub timer_disarmed_by_event: u64, pub nochange_while_armed: u64, pub overdue_polls: u64, pub early_polls: u64, pub orphan_releases_after_tablet: u64, pub phantom_events: u64, pub rounded_up_polls: u64,
   pub other_property_disagreements: u64,
   pub shape: u64,
 }
@@ -955,6 +957,11 @@ struct Timer { keys: Vec<KeyCode>, lo: u64, hi: u64, iv: u64, delay: u64, anchor
 pub fn check_trace(l: &Layout, trace: &[Item], result: &Result<(), String>, en: &EnB, obs: &mut ObsB) -> Option<Violation> {
   let mut mapper = Mapper::for_layout(l);
   let mut tablet = false;
+  // C11 speaks about delay >= 0 ms and interval >= 1 ms; what a layout with other timings makes the
+  // timer do is pinned down by no statement, so for such a layout nothing about the timer is
+  // predicted in any projection: what is written after a time-out is taken as it comes
+  let unspecified_timing = l.mappings.iter().any(|m| matches!(&m.repeat, Repeat::Special { delay_ms, interval_ms, .. } if *delay_ms < 0 || *interval_ms < 1));
+  let mut wake_t: Option<u64> = None;
   let mut timer: Option<Timer> = None;
   let mut held: Vec<KeyCode> = vec![];
   let mut pending: VecDeque<Group> = VecDeque::new();
@@ -1033,9 +1040,16 @@ pub fn check_trace(l: &Layout, trace: &[Item], result: &Result<(), String>, en: 
               let d = t_in.saturating_add(*x);
               let exact_ok = *x > 0 && d >= t.lo && d <= t.hi && d > *t_in;
               let overdue_ok = *x <= 1000 && t.lo <= *t_in;
+              // delay_ms and interval_ms are whole milliseconds and so is the time-out the kernel takes: a
+              // wait rounded up to the next millisecond ends less than 1 ms after the deadline, which stays
+              // where it is (no drift) — within the statement's resolution
+              let rounded_up_ok = *x > 0 && d > t.hi && d - t.hi < 1000 && *x % 1000 == 0;
               if d < t.lo { early_poll = true; obs.early_polls += 1; }
+              else if rounded_up_ok && !overdue_ok { obs.rounded_up_polls += 1; }
               else if !(exact_ok || overdue_ok) { timeout_ok = false; }
-              else if exact_ok && !overdue_ok { t.lo = d; t.hi = d; }
+              // (a time-out of a whole number of milliseconds may be a rounded one: it does not say where
+              // in the interval the loop's own deadline lies, so it pins nothing down)
+              else if exact_ok && !overdue_ok { if *x % 1000 != 0 { t.lo = d; t.hi = d; } }
               else if overdue_ok && !exact_ok { t.hi = t.hi.min(*t_in); }
               else { /* both readings possible: keep the interval */ t.hi = t.hi.min(d.max(*t_in)); }
             }
@@ -1050,6 +1064,7 @@ pub fn check_trace(l: &Layout, trace: &[Item], result: &Result<(), String>, en: 
         last_poll_timed_out = false; stale_unread = false;
         match res {
           PollRes::Devices(ds) => {
+            wake_t = Some(*t_out);
             if ds.contains(&VDevice::Keyboard) { owed_k = true; }
             if ds.contains(&VDevice::Tablet) { owed_t = true; }
             if ds.len() == 2 || prev_interrupt_or_spurious { obs.nt_c10 = true; }
@@ -1114,7 +1129,10 @@ pub fn check_trace(l: &Layout, trace: &[Item], result: &Result<(), String>, en: 
               match sr.repeat {
                 ResultingRepeat::Repeating { keys, delay_ms, interval_ms } => {
                   let delay = (delay_ms as u32 as u64).saturating_mul(1000); let iv = (interval_ms as u32 as u64).saturating_mul(1000);
-                  timer_gen += 1; timer = Some(Timer { keys, lo: t_out.saturating_add(delay), hi: u64::MAX, iv, delay, anchor_open: true, gen: timer_gen });
+                  // the delay runs from some moment between the wake-up in which the arming event was read
+                  // (a loop may read the clock once per wake-up, before it reads the events) and the next wait
+                  let from = wake_t.unwrap_or(*t_out).min(*t_out);
+                  timer_gen += 1; if !unspecified_timing { timer = Some(Timer { keys, lo: from.saturating_add(delay), hi: u64::MAX, iv, delay, anchor_open: true, gen: timer_gen }); }
                 }
                 ResultingRepeat::Disabled => { if timer.is_some() { obs.timer_disarmed_by_event += 1; } timer = None; }
                 ResultingRepeat::NoChange => { if timer.is_some() { obs.nochange_while_armed += 1; } }
@@ -1148,11 +1166,14 @@ pub fn check_trace(l: &Layout, trace: &[Item], result: &Result<(), String>, en: 
       }
       Item::Send { evs, t_out: _ } => {
         obs.sends += 1;
+        if unspecified_timing && last_poll_timed_out { for e in evs { fold1(&mut held, e); } continue; }
         while matches!(pending.front(), Some(g) if group_done(g) && !(g.kind == Kind::Chord && evs.is_empty() && g.before.is_none())) { pending.pop_front(); }
         if evs.is_empty() {
           // an empty batch is acceptable only as the write of an empty repeat chord
           match pending.front() { Some(g) if g.kind == Kind::Chord && g.evs.is_empty() => { pending.pop_front(); obs.chords += 1; if obs.chords >= 2 { obs.nt_c11 = true; } }
             _ => { if last_poll_timed_out && timer.is_none() && pending.is_empty() { report!("C11-unexpected-chord", i, "wrote [] after a time-out although no repeat chord is due".to_string()); if !tablet && tablet_events > 0 { report!("C12-not-fresh", i, "after a tablet-mode change the loop wrote [] where a freshly started loop writes nothing".to_string()); report!("C06-loop-not-fresh", i, "after a tablet-mode change the loop wrote [] where a freshly started loop writes nothing".to_string()); } if tablet { report!("C12-send-in-tablet", i, "wrote [] while in tablet mode".to_string()); } }
+                   // (an empty batch right after a time-out is a repeat chord, due or not: the timer's business)
+                   else if last_poll_timed_out { report!("C11-unexpected-chord", i, "wrote [] after a time-out although no repeat chord is due".to_string()); }
                    else { report!("C10-empty-send", i, "an empty batch was written to the virtual keyboard".to_string()); } } }
           continue;
         }
